@@ -28,6 +28,9 @@
 #include <pika/thread.hpp>
 
 #include <atomic>
+#include <dirent.h>
+#include <sys/syscall.h>
+#include <unistd.h>
 #include <chrono>
 #include <csetjmp>
 #include <sys/syscall.h>
@@ -529,6 +532,30 @@ static void rp_handler(pika::resource::partitioner& rp, pika::program_options::v
     for (std::size_t k = usable - usable / 2; k < usable; ++k) rp.add_resource(*pus[k], "bulk-pool");
 }
 
+// true if some thread of this process other than `self` is runnable (R) or in uninterruptible wait (D) right now
+static bool any_thread_runnable(int self)
+{
+    DIR* d = opendir("/proc/self/task");
+    if (!d) return true;
+    bool any = false;
+    while (dirent* e = readdir(d))
+    {
+        if (e->d_name[0] == '.') continue;
+        if (std::atoi(e->d_name) == self) continue;
+        char path[96], buf[512];
+        std::snprintf(path, sizeof(path), "/proc/self/task/%s/stat", e->d_name);
+        FILE* f = std::fopen(path, "r");
+        if (!f) continue;
+        std::size_t n = std::fread(buf, 1, sizeof(buf) - 1, f);
+        std::fclose(f);
+        buf[n] = 0;
+        char const* q = std::strrchr(buf, ')');
+        if (q && q[1] == ' ' && (q[2] == 'R' || q[2] == 'D')) any = true;
+    }
+    closedir(d);
+    return any;
+}
+
 static void run_one(case_t const& c)
 {
     g_case = &c;
@@ -540,8 +567,9 @@ static void run_one(case_t const& c)
     if (c.gets("kind", "arith") != "arith")
         std::thread([] {
             long long last = -1;
-            int idle = 0;
+            int idle = 0, blocked = 0;
             std::clock_t cpu0 = std::clock();
+            int const self = int(syscall(SYS_gettid));
             for (;;)
             {
                 std::this_thread::sleep_for(std::chrono::milliseconds(100));
@@ -549,11 +577,20 @@ static void run_one(case_t const& c)
                 if (p != last)
                 {
                     idle = 0;
+                    blocked = 0;
                     cpu0 = std::clock();
                 }
-                else { ++idle; }
+                else
+                {
+                    ++idle;
+                    // second form of the verdict, for a hang in which nobody burns CPU: no progress and, sample after
+                    // sample, no thread of the process is runnable or in disk wait (a starved machine shows runnable
+                    // threads, never "all asleep")
+                    if (any_thread_runnable(self)) blocked = 0;
+                    else ++blocked;
+                }
                 last = p;
-                if (g_overflow.load() || (idle >= 250 && double(std::clock() - cpu0) / CLOCKS_PER_SEC >= 8.0))
+                if (g_overflow.load() || (idle >= 250 && double(std::clock() - cpu0) / CLOCKS_PER_SEC >= 8.0) || blocked >= 200)
                 {
                     bool const ovf = g_overflow.load();
                     g_trace = false;
